@@ -20,3 +20,10 @@ func verifYield(site string) {
 		f(site)
 	}
 }
+
+// VerifSessionExpireCheck runs the periodic session-expiry sweep of s (normally every 20 s) once, now.
+func VerifSessionExpireCheck(s Server) {
+	if srv, ok := s.(*server); ok {
+		srv.sessionExpireCheck()
+	}
+}
